@@ -1047,3 +1047,55 @@ Proof.
   exact (op_payload n p lp seed rp sd0 ds O Ep D1 D2 D3).
 Qed.
 End Main.
+
+(* ---- closed forms ---- *)
+Theorem recompress_unitig K st mode (idf colf : dna -> N) (SL : list dna) (g1 out : list node_t) paths : 1 <= K ->
+  rvalid pay K st g1 -> lgraph_ok K st (kjoin_f mode colf) SL g1 -> NoDup (gk K st g1) ->
+  (forall w, In w SL -> both_in K st (fun k => In k (gk K st g1)) w) ->
+  (forall w, In w SL -> exists v, wf_dna v /\ length v = S K /\ w = cn st v) ->
+  PipelineCheck.payload_ok K st mode idf colf g1 ->
+  compress_graph_paths pay pay_reduce (pay_join mode) K st g1 None = Some (out, paths) ->
+  Permutation (gk K st out) (gk K st g1) /\ (forall w, In w (graph_links K st out) <-> In w SL) /\
+  unitig_graph K st mode colf out /\ PipelineCheck.payload_ok K st mode idf colf out.
+Proof.
+  intros HK Hv Hlg Hnd Hcl Hwf Hpay Hc.
+  split; [eapply (out_kmers K st mode idf colf SL g1); eassumption|].
+  split; [eapply (out_links K st mode idf colf SL g1); eassumption|].
+  split; [eapply (out_unitig K st mode idf colf SL g1); eassumption | eapply (out_payload K st mode idf colf SL g1); eassumption].
+Qed.
+
+(* ... and from a loose graph (dangling extension bits allowed): compress_graph prunes first *)
+Theorem recompress_loose_unitig K st mode (idf colf : dna -> N) (S' SL : list dna) (G out : list node_t) : 1 <= K ->
+  lgraph_ok K st (kjoin_f mode colf) S' G -> NoDup (gk K st G) ->
+  (forall w, In w SL <-> In w S' /\ both_in K st (fun k => In k (gk K st G)) w) ->
+  (forall w, In w SL -> exists v, wf_dna v /\ length v = S K /\ w = cn st v) ->
+  PipelineCheck.payload_ok K st mode idf colf G ->
+  compress_graph pay pay_reduce (pay_join mode) K st G None = Some out ->
+  Permutation (gk K st out) (gk K st G) /\ (forall w, In w (graph_links K st out) <-> In w SL) /\
+  unitig_graph K st mode colf out /\ PipelineCheck.payload_ok K st mode idf colf out.
+Proof.
+  intros HK HG Hnd HS Hwf Hpay Hc. destruct (RecompLoose.prune_total pay K st G) as [g1 Hp].
+  unfold compress_graph in Hc. destruct (compress_graph_paths pay pay_reduce (pay_join mode) K st G None) as [[o paths]|] eqn:Hcp; [|discriminate].
+  cbn in Hc. injection Hc as ->.
+  rewrite <- (RecompLoose.compress_graph_prune pay pay_reduce (pay_join mode) K st G g1 None Hp) in Hcp.
+  pose proof (pruned_gk K st G g1 Hp) as Egk.
+  assert (Hpay1 : PipelineCheck.payload_ok K st mode idf colf g1).
+  { intros n1 H1. destruct (pruned_in K st (kjoin_f mode colf) S' G HK HG Hnd g1 Hp n1 H1) as (x & n & _ & _ & Hn & Es & Ed & _).
+    unfold PipelineCheck.node_kmers, nd_ids, nd_colour. rewrite Es, Ed. exact (Hpay n Hn). }
+  rewrite <- Egk.
+  apply (recompress_unitig K st mode idf colf SL g1 out paths HK); auto.
+  - exact (pruned_rvalid K st (kjoin_f mode colf) S' G HK HG Hnd g1 Hp).
+  - exact (pruned_lgraph_ok K st (kjoin_f mode colf) S' G HK HG Hnd SL HS g1 Hp).
+  - now rewrite Egk.
+  - intros w Hw. eapply pruned_closed; eauto.
+Qed.
+Theorem recompress_loose_total K st mode (colf : dna -> N) (S' : list dna) (G : list node_t) : 1 <= K ->
+  lgraph_ok K st (kjoin_f mode colf) S' G -> NoDup (gk K st G) ->
+  exists out, compress_graph pay pay_reduce (pay_join mode) K st G None = Some out.
+Proof.
+  intros HK HG Hnd. pose proof (G_rvalid_loose K st (kjoin_f mode colf) S' G HK HG Hnd) as V.
+  destruct (RecompLooseMain.recompress_total_loose pay pay_reduce (pay_join mode) K st (E2eGraph.join_sym mode) G None V) as (out & paths & H).
+  exists out. unfold compress_graph. now rewrite H.
+Qed.
+Print Assumptions recompress_loose_unitig.
+Print Assumptions recompress_loose_total.
